@@ -191,6 +191,12 @@ pub(super) trait DialectHandler: Any + Debug {
         true
     }
 
+    /// Whether a WITH clause that holds a recursive CTE is written
+    /// `WITH RECURSIVE`. Where it is not, any CTE may refer to itself.
+    fn has_recursive_keyword(&self) -> bool {
+        true
+    }
+
     /// Whether or not intervals such as `INTERVAL 1 HOUR` require quotes like
     /// `INTERVAL '1 HOUR'` or `INTERVAL '1' HOUR`
     fn interval_quoting_style(&self, _dtf: &DateTimeField) -> IntervalQuotingStyle {
@@ -438,6 +444,11 @@ impl DialectHandler for SQLiteDialect {
 impl DialectHandler for MsSqlDialect {
     fn use_fetch(&self) -> bool {
         true
+    }
+
+    // https://learn.microsoft.com/en-us/sql/t-sql/queries/with-common-table-expression-transact-sql
+    fn has_recursive_keyword(&self) -> bool {
+        false
     }
 
     // https://learn.microsoft.com/en-us/sql/t-sql/language-elements/set-operators-except-and-intersect-transact-sql?view=sql-server-ver16
